@@ -47,6 +47,7 @@ fn main() {
     }
     let mut rng = Rng::new(seed);
     let mut cases = Cases::new(BufWriter::new(File::create(&out).unwrap()));
+    cases.inflight = Some(format!("{}.inflight", out));
     match scenario.as_str() {
         "C14" => c14::generate(&mut cases, &mut rng, thorough),
         "iter-exh-c04" => { cases.prop = "C04".into(); c_hist::generate_iter_exhaustive(&mut cases, thorough, "C04") }
